@@ -62,12 +62,45 @@ func (u *Unit) lookupLocal(env *Env, name string) (Val, bool) {
 			return nil, false
 		}
 	}
+	var rootFr *Frame
 	for ; fr != nil; fr = fr.parent {
 		if v, ok := u.lookupIn(env, fr, name); ok {
 			return v, true
 		}
+		if fr.fn == u.root {
+			rootFr = fr
+		}
 		if fr.fn == nil || fr.fn.Parent() == nil {
 			break
+		}
+	}
+	// The contract may still use the names its header gives to the receiver and the parameters (the code may have
+	// renamed them), or the name of a parameter that has since been grouped with others into a struct parameter.
+	if rootFr != nil && u.fc != nil {
+		hn := contractParamNames(u.root, u.fc)
+		for i, p := range u.root.Params {
+			if i < len(hn) && hn[i] == name && p.Name() != name {
+				if v, ok := rootFr.vals[p]; ok {
+					return v, true
+				}
+			}
+		}
+		var found Val
+		n := 0
+		for _, p := range u.root.Params {
+			sv, ok := rootFr.vals[p].(*StructV)
+			if !ok {
+				continue
+			}
+			for j, fnm := range structFieldNames(sv) {
+				if fnm == name && j < len(sv.F) {
+					found = sv.F[j]
+					n++
+				}
+			}
+		}
+		if n == 1 {
+			return found, true
 		}
 	}
 	return nil, false
